@@ -285,6 +285,9 @@ mod c09 {
         assert!(!lit.is_of_type(&prg, &wrong_elem));
     }
 
+    // (tried: `min..min + 2` with symbolic min and concrete length through as_bits -- CBMC times out at 400 s
+    //  on the `(min..max).collect()` inside as_bits, for u16 as well as u64; the encoding of range literals is
+    //  therefore outside this check)
     #[kani::proof]
     #[kani::stub(std::hash::RandomState::new, rs_stub)]
     #[kani::unwind(4)]
